@@ -1039,6 +1039,9 @@ func (p *Parser[V]) parseLet(tokenizer *Tokenizer, idents Identifiers[V]) (AST, 
 }
 
 func (p *Parser[V]) parseExpression(tokenizer *Tokenizer, constants Identifiers[V]) (AST, error) {
+	if len(p.operators) == 0 {
+		return p.parseUnary(tokenizer, constants)
+	}
 	return p.parseOp(tokenizer, 0, constants)
 }
 
@@ -1088,8 +1091,9 @@ func (p *Parser[V]) parseUnary(tokenizer *Tokenizer, constants Identifiers[V]) (
 			var inner AST
 			var err error
 			if un.opPos >= 0 {
-				// the unary is also an operator ("-")
-				inner, err = p.parseOp(tokenizer, un.opPos+1, constants)
+				// the unary is also an operator ("-"), the operand is built from the
+				// operators with a higher priority, if there are any
+				inner, err = p.nextParserCall(un.opPos)(tokenizer, constants)
 			} else {
 				inner, err = p.parseNonOperator(tokenizer, constants)
 			}
